@@ -100,6 +100,9 @@ class _LazyGen:
                 self.resume.acquire()
                 if self.abort:
                     raise _GenAbort()
+                if getattr(self, "pending", None) is not None:
+                    ex_, self.pending = self.pending, None
+                    raise ex_  # generator.throw(): the exception appears at the suspended yield
 
             self.px.call_function_gen(self.func, self.recv, self.args, self.kwargs, self.frame, on_yield)
         except _GenAbort:
@@ -126,6 +129,21 @@ class _LazyGen:
         if self.done:
             raise StopIteration
         return self.value
+
+    def throw(self, ex):
+        """generator.throw(ex): True when the generator finished without re-raising (it swallowed the exception); the exception it
+        ends with is raised here otherwise."""
+        if self.done or self.thread is None:
+            raise ex
+        self.pending = ex
+        self.resume.release()
+        self.ready.acquire()
+        if self.error is not None:
+            err, self.error = self.error, None
+            raise err
+        if self.done:
+            return True
+        raise Unsupported("a context-manager generator yields again after an exception was thrown into it")
 
     def close(self):
         if self.thread is not None and not self.done:
@@ -809,10 +827,14 @@ class PX:
             stack = _ExitStack(text.endswith("AsyncExitStack"))
             if item.optional_vars is not None:
                 self.assign(item.optional_vars, stack, fr)
+            in_flight = None
             try:
                 run_body()
+            except Exc as ex_:
+                in_flight = ex_
+                raise
             finally:
-                self._unwind_exit_stack(stack, fr, st)
+                self._unwind_exit_stack(stack, fr, st, in_flight)
             return
         # repo @contextmanager generator, inlined
         if isinstance(ce, ast.Call):
@@ -873,12 +895,30 @@ class PX:
             self.ctxstack = self.ctxstack[:-1]
             self.emit("exit", text, node=st, frame=fr)
 
-    def _unwind_exit_stack(self, stack, fr, st):
+    def _unwind_exit_stack(self, stack, fr, st, in_flight=None):
         pending = None
         while stack.items:
             kind, a, b, c = stack.items.pop()
             try:
-                if kind == "cm":
+                if kind == "gen":
+                    # a @contextmanager generator of the repository entered through the stack: resumed (or given the exception in
+                    # flight) so that the code after its yield - its finally - runs now
+                    if a in self.ctxstack:
+                        i = len(self.ctxstack) - 1 - self.ctxstack[::-1].index(a)
+                        self.ctxstack = self.ctxstack[:i] + self.ctxstack[i + 1:]
+                    self.emit("cm-resume", a, node=st, frame=fr)
+                    cur = pending or in_flight
+                    if cur is not None:
+                        if b.throw(cur):
+                            raise Unsupported("a context manager entered through an ExitStack swallows the exception in flight")
+                    else:
+                        try:
+                            next(b)
+                        except StopIteration:
+                            pass
+                        else:
+                            raise Unsupported("a context-manager generator yields twice")
+                elif kind == "cm":
                     if a in self.ctxstack:
                         i = len(self.ctxstack) - 1 - self.ctxstack[::-1].index(a)
                         self.ctxstack = self.ctxstack[:i] + self.ctxstack[i + 1:]
@@ -899,6 +939,22 @@ class PX:
                 raise Unsupported(f"{fr.mod}: {name} without a visible context expression")
             ce = node.args[0]
             ctext = _text(ce.func) if isinstance(ce, ast.Call) else _text(ce)
+            if isinstance(ce, ast.Call):
+                fval_ = self.ev(ce.func, fr)
+                target_ = fval_.func if isinstance(fval_, Bound) else fval_
+                if isinstance(target_, FuncRef) and any("contextmanager" in d for d in target_.decorators) and not target_.is_async \
+                        and self.should_inline(fval_, False, fr) is not False and self.model_for(ctext) is None and self.model_for("with:" + ctext) is None:
+                    cargs, ckw = self.ev_args(ce, fr)
+                    self.emit("call", ctext, cargs, ckw, node=node, frame=fr, extra="contextmanager")
+                    gen = _LazyGen(self, target_, fval_.recv if isinstance(fval_, Bound) else None, list(cargs), dict(ckw), fr)
+                    try:
+                        val = next(gen)
+                    except StopIteration:
+                        raise Exc("RuntimeError", ("generator didn't yield",), origin=ctext)
+                    self.emit("cm-yield", ctext, (val,), node=node, frame=fr)
+                    self.ctxstack = self.ctxstack + [ctext]
+                    stack.items.append(("gen", ctext, gen, None))
+                    return val
             cargs, ckw = self.ev_args(ce, fr) if isinstance(ce, ast.Call) else ((), {})
             model = self.model_for("with:" + ctext)
             val = Sym(f"with:{ctext}#{self._count('with:' + ctext)}")
@@ -1597,6 +1653,8 @@ class PX:
         return self.subscript(b, k, fr, e)
 
     def subscript(self, b, k, fr, e=None):
+        if isinstance(k, slice) and isinstance(b, (list, tuple, str, bytes, bytearray)):
+            return b[k]
         if isinstance(b, Sym):
             return self.sym_index(b, k)
         if isinstance(b, Obj):
@@ -1825,7 +1883,7 @@ class PX:
             return None
         # lock-style use of a semaphore / lock attribute: ``await X.acquire()`` ... ``X.release()`` in the same function is the
         # explicit spelling of ``async with X`` - the same enter / exit events, so that rules see one form
-        if isinstance(e.func, ast.Attribute) and e.func.attr in ("acquire", "release") and not e.args and not e.keywords \
+        if isinstance(e.func, ast.Attribute) and e.func.attr in ("acquire", "release") and (e.func.attr == "acquire" or not (e.args or e.keywords)) \
                 and _text(e.func.value).startswith("self.") and self.model_for(text) is None:
             recv = _text(e.func.value)
             fnode = getattr(getattr(fr, "func", None), "node", None)
@@ -1836,7 +1894,10 @@ class PX:
                 if self.cancel and self.choose(2, f"cancel@enter {recv}"):
                     self.emit("cancelled", "enter " + recv, node=e, frame=fr)
                     raise Exc("CancelledError", origin="enter " + recv)
-                self.emit("enter", recv, (), {}, node=e, frame=fr)
+                a_, k_ = self.ev_args(e, fr)
+                if a_:  # zigpy's priority semaphore: acquire(priority) is what `async with sem(priority=...)` does
+                    k_ = {"priority": a_[0], **k_}
+                self.emit("enter", recv, (), k_, node=e, frame=fr)
                 self.ctxstack = self.ctxstack + [recv]
                 return True
             if paired and not awaited and e.func.attr == "release" and recv in self.ctxstack:
@@ -1849,6 +1910,11 @@ class PX:
             args, kw = self.ev_args(e, fr)
             return self.opaque("super()." + e.func.attr, args, kw, fr, e, awaited)
         fval = self.ev(e.func, fr)
+        if isinstance(fval, _PyMethod) and isinstance(fval.obj, _ExitStack) and fval.name in ("enter_context", "enter_async_context") \
+                and len(e.args) == 1 and not e.keywords:
+            # the context expression is evaluated by the stack model itself (a @contextmanager generator of the repository must be
+            # entered - run up to its yield - not run to completion as an ordinary call would)
+            return self.exit_stack_method(fval.obj, fval.name, text, [None], {}, fr, e)
         args, kw = self.ev_args(e, fr)
         return self.do_call(fval, text, args, kw, fr, e, awaited)
 
@@ -1921,6 +1987,15 @@ class PX:
             return o
         if isinstance(fval, TypeRef) and fval.name in ("operator.methodcaller", "operator.attrgetter", "operator.itemgetter") and args:
             return _OpCallable(fval.name[9:], args, kw)
+        if type(fval).__name__ == "Record" and getattr(fval, "ctor", None) == TypeRef("builtins.lambda") and "node" in fval.kwargs:
+            # a lambda written at module level (a table of getters): called like a closure whose enclosing scope is that module
+            lam = fval.kwargs
+            mfr = Frame(None, {}, None, None, mod=lam.get("mod"), depth=(fr.depth if fr is not None else 0))
+            return self.do_call(Closure(lam["node"], mfr, "<lambda>"), text, args, kw, fr, node, awaited)
+        if type(fval).__name__ == "Record" and isinstance(getattr(fval, "ctor", None), TypeRef) \
+                and fval.ctor.name in ("operator.methodcaller", "operator.attrgetter", "operator.itemgetter") and fval.args:
+            # a getter built at module level (``_child_info = operator.attrgetter("id", "eui64")``) and called here
+            fval = _OpCallable(fval.ctor.name[9:], fval.args, fval.kwargs)
         if isinstance(fval, _OpCallable) and len(args) == 1:
             o = args[0]
             if fval.kind == "methodcaller":
@@ -2323,6 +2398,8 @@ class PX:
 
         if n == "isinstance":
             return self.isinstance_(args[0], args[1], fr, node)
+        if n == "slice" and not kw and 1 <= len(args) <= 3 and all(a is None or (isinstance(a, int) and not isinstance(a, bool)) for a in args):
+            return slice(*[None if a is None else int(a) for a in args])
         if n == "super":
             return Sym("super()")
         if n == "len":
